@@ -398,6 +398,19 @@ func c03R2(p *core.Program, r *core.Report) {
 			}
 		}
 	}
+	if ip := importPrinter(p); ip != nil && len(wi) == 0 && (ip == wf || ip == wf.Origin) {
+		// the block is printed by the writer itself, from a map read off its own tracker
+		nread := 0
+		for _, ic := range core.CallsTo(wf.Info(), wf.Body, true, ifaceImports) {
+			if isImportsField(wf.Info(), recvOf(ic)) && sameAlias(wf, recvOf(ic).(*ast.SelectorExpr).X, recvVar(wf)) {
+				nread++
+			}
+		}
+		if nread == 1 {
+			okPrint = true
+			wi = append(wi, nil)
+		}
+	}
 	r.Check(okPrint && len(wi) == 1, rule, wf, "the import block is printed from the file's own tracker", wf.Node().Pos(), "writeImports(_, ff.imports.Imports())", "the import block is printed from another source than ff.imports.Imports()")
 	importBlockRule(p, r, rule)
 }
